@@ -2,7 +2,7 @@
    (The ADVAN/TRANS table obligations are REGENERATED from advan.py on every run into
    build/gen/C01/AdvanObligations.v and compiled there; see harness/props/c01_tadvan.py.) *)
 From Coq Require Import QArith List Bool PArith Arith.
-From PV Require Import Base.PyData Base.Expr Base.Stmts C01.Model C01.Proofs C01.ProofsRates C01.ProofsParams C01.ProofsOmega.
+From PV Require Import Base.PyData Base.Expr Base.Stmts C01.Model C01.Proofs C01.ProofsRates C01.ProofsParams C01.ProofsOmega C01.Parser C01.ParserProofs.
 Local Open Scope nat_scope.
 
 (* Reading abbreviated code preserves its meaning.  For EVERY program (any length, any nesting,
@@ -18,13 +18,27 @@ Theorem translate_sound :
 Proof. exact translate_sound_lemma. Qed.
 
 (* Reading a code record = interpreting every expression with ExpressionInterpreter's function
-   table, then building the statements.  Since fix 81bb571 (MOD = Fortran remainder) no guard on
-   the intrinsics is needed: the whole reading is sound under the four block-IF guards alone. *)
+   table (LOG10 and the protected functions PEXP, PLOG, PLOG10, PSQRT, PNG, PHE, PNP, PZR, PDZ are
+   expanded into their clamp rule, MOD keeps its Fortran meaning), then building the statements.
+   For every interpretation of the function symbols that respects the protection rules
+   ([protected_spec]: each protected symbol equals its rule over EXP/LOG/SQRT/ABS), every program,
+   every environment: the statements read evaluate like the NM-TRAN reference semantics of the
+   ORIGINAL program (protected functions as symbols), under the four block-IF guards. *)
 Theorem read_code_sound :
   forall (fi : finterp) (ode : id -> list (option Q) -> option Q) (p : body) (r r' : env),
-    guard_code p = true -> fresh_env r p -> nm_body fi r p = Some r' ->
+    protected_spec fi ->
+    guard_code (read_body p) = true -> fresh_env r p -> nm_body fi r p = Some r' ->
     forall v, exec fi ode r (read_code p) v = r' v.
-Proof. exact read_code_sound_lemma. Qed.
+Proof.
+  intros fi ode p r r' Hs Hg Hf Hnm. apply (read_code_sound_lemma fi Hs ode p r r' Hg); [|exact Hnm].
+  apply read_fresh_env. exact Hf.
+Qed.
+
+(* expanding the protected functions does not change the value of any expression or condition *)
+Theorem read_expr_sound :
+  forall (fi : finterp), protected_spec fi ->
+    (forall e r, eval r fi (read_expr e) = eval r fi e) /\ (forall c r, evalc r fi (read_cond c) = evalc r fi c).
+Proof. exact read_eval. Qed.
 
 (* The translation invents no symbol: every statement it emits assigns a symbol the program assigns. *)
 Theorem translate_targets :
@@ -131,3 +145,13 @@ Proof. exact nm_cov_symmetric_lemma. Qed.
 Theorem cholesky_diag_nonneg :
   forall (sqrt : Q -> Q) n (M : nat -> nat -> Q) i, (0 <= nm_cov sqrt FChol n M i i)%Q.
 Proof. exact cholesky_diag_nonneg_lemma. Qed.
+
+(* REFERENCE PARSER.  Printing any well-formed program (expressions fully parenthesised; conditions in
+   the .OR. of .AND. of [.NOT.] relation shape the concrete syntax has; blocks with at least one branch)
+   to tokens and parsing the tokens with the reference parser gives the program back - every program,
+   any nesting depth; the fuel parse_prog computes from the token count always suffices. *)
+Theorem parse_print : forall p : body, wf_body p = true -> parse_prog (pr_body p) = Some p.
+Proof. exact parse_print_lemma. Qed.
+
+Theorem parse_print_expr : forall e : expr, wfe e = true -> p_add (need e + 6) (pr e) = Some (e, nil).
+Proof. exact parse_print_expr_lemma. Qed.
